@@ -291,13 +291,23 @@ def correspondence(ctx):
         ctx.count("rx_exhaustive_streams")
     # sampled: long multi-frame streams
     nlong = 40 if quick else 600
-    for _ in range(nlong):
+    expect = []
+    for li in range(nlong):
         nfr = rng.randint(1, 6)
+        many = (li % 5 == 4)
+        if many:
+            # a burst of many tiny messages that the peer reads in one go (every one must be dispatched)
+            nfr = rng.choice([31, 32, 33, 34, 64, 65, 100, 257])
+            ctx.count("rx_many_small_frames")
         frames = []
         for _ in range(nfr):
             ln = rng.choice(LENS if rng.random() < 0.25 else [0, 1, 7, 8, 9, rng.randint(0, 300), 2047, 2048, 2049])
+            if many:
+                ln = rng.choice([0, 0, 1, 2, 5])
             frames.append((rng.choice([0, 1, 2, 65535, rng.randint(0, 65535)]), rng.choice(CMDS), rand_payload(ln)))
         kind = rng.random()
+        if many:
+            kind = 0.9
         tail = b""
         if kind < 0.15:
             tail = encode_py(3, 0x4206, b"x" * 50)[:rng.randint(1, 57)]      # truncated frame
@@ -319,9 +329,19 @@ def correspondence(ctx):
                     e = encode_py(*f)
                     chunks += random_cut(rng, e, 2)
                 chunks += [tail] if tail else []
+            if many and rng.random() < 0.7:
+                chunks = [s] if rng.random() < 0.5 else random_cut(rng, s, 2)
             lines.append("RX " + " ".join(hx(c) for c in chunks))
             impl.append(impl_rx(ssnet, chunks))
             descr.append(("rxl", hash(s), tuple(len(c) for c in chunks)))
+            expect.append((len(lines) - 1, "OK %s | - 0" % ";".join("%d,%d,%s" % (a, b, hx(d)) for a, b, d in frames))
+                          if not tail else None)
+    # oracle on the implementation alone: once a well-formed stream has been handed over completely,
+    # exactly the messages sent have been dispatched, in order, whatever the read boundaries were
+    for e in expect:
+        if e is not None and impl[e[0]] != e[1]:
+            ctx.violation("a well-formed stream was read completely but not every message was dispatched (or not in order)",
+                          {"chunks_hex": lines[e[0]][3:][:4000], "dispatched": impl[e[0]][:1500], "sent": e[1][:1500]})
     out = ctx.run_driver(lines)
     by_stream = {}
     for ln, i, o, d in zip(lines, impl, out, descr):
